@@ -26,7 +26,7 @@ ASSUME = [
 # quiescence obligation: nothing is excused by a known-defect tag
 MC_LINES = ["SPECIFICATION Spec", "INVARIANTS MonOK QuiesceStrict BooksOK BoundOK DeliveredOK", "VIEW View", "CHECK_DEADLOCK FALSE"]
 BASEC = dict(MaxConc=1, MaxConn=2, MaxCancel=1, DialOpts="<- BothOpts", Fixed="<- FixedD9", Wedge=False, ImmErr=True, Foreign=True,
-             Bugs="<- NoBugs", Idle=False, Faults=True, KeepHist=False)
+             Bugs="<- NoBugs", Idle=False, Faults=True, Stall=False, KeepHist=False)
 # connection-level view of responses (C04 clause lifted to the connection): no link faults, the responder's
 # connection task may exit on idle (Drain; Close), the monitor judges "reported complete => delivered"
 IDLEC = dict(BASEC, Idle=True, Faults=False)
@@ -37,9 +37,11 @@ def mc_configs(ctx):
     one = dict(BASEC, Peers="<- OnePeer", MaxReq=3)
     two = dict(BASEC, Peers="<- TwoPeers", MaxReq=2)
     idle = ("idle-close-1peer-2req", dict(IDLEC, Peers="<- OnePeer", MaxReq=2), MC_LINES)
+    # the write phase of a request as its own step: completes | stalls with the connection staying up -> timeout
+    stall = ("write-stall-1peer-2req", dict(BASEC, Peers="<- OnePeer", MaxReq=2, Stall=True), MC_LINES)
     if ctx.quick():
-        return [("1peer-3req", one, MC_LINES), ("2peers-2req", two, MC_LINES + ["SYMMETRY Sym"]), idle]
-    return [("1peer-3req", one, MC_LINES), ("2peers-2req", two, MC_LINES + ["SYMMETRY Sym"]), idle,
+        return [("1peer-3req", one, MC_LINES), ("2peers-2req", two, MC_LINES + ["SYMMETRY Sym"]), idle, stall]
+    return [("1peer-3req", one, MC_LINES), ("2peers-2req", two, MC_LINES + ["SYMMETRY Sym"]), idle, stall,
             ("idle-close-2peers-2req", dict(IDLEC, Peers="<- TwoPeers", MaxReq=2), MC_LINES + ["SYMMETRY Sym"]),
             ("1peer-3req-nolimit-2cancel", dict(one, MaxConc="<- NoLimit", MaxCancel=2, DialOpts="<- DialOnly"), MC_LINES),
             ("2peers-3req-nocancel", dict(BASEC, Peers="<- TwoPeers", MaxReq=3, MaxCancel=0, DialOpts="<- DialOnly", MaxConn=2),
@@ -257,6 +259,13 @@ def selftest(ctx):
         found = (not r["ok"]) and "Invariant MonOK is violated" in r["out"] and "response reported sent but lost" in r["out"]
         log("selftest model: %s -> %s" % (what, "MonOK violated: response reported sent but lost (expected)" if found else "NOT violated"))
         ok &= found
+    # the write phase of a request is not bounded by the request timeout (seeded change C13g)
+    r = tlc_mc(ctx, "ReqRespMC.tla", write_cfg(ctx, "negw.cfg", dict(BASEC, Peers="<- OnePeer", MaxReq=2, Stall=True, Bugs="<- NoWriteTimeout"),
+                                               ["SPECIFICATION Spec", "INVARIANTS MonOK QuiesceStrict", "VIEW View", "CHECK_DEADLOCK FALSE"] + MV),
+               workers=4, timeout=600, expect_violation=True)
+    found = (not r["ok"]) and "Invariant QuiesceStrict is violated" in r["out"] and "WriteStall" in r["out"]
+    log("selftest model: a stalled request write has no timeout -> %s" % ("QuiesceStrict violated (expected)" if found else "NOT violated"))
+    ok &= found
     # a Dial request that meets AlreadyConnected is queued instead of failed (seeded change C13f): lost in the window in
     # which the protocol has processed ConnectionClosed and the manager has not
     r = tlc_mc(ctx, "ReqRespMC.tla", write_cfg(ctx, "negq.cfg", dict(BASEC, Peers="<- OnePeer", MaxReq=2, Bugs="<- QueueAC"),
